@@ -221,6 +221,62 @@ func runC07(c *Ctx) {
 		c.Check(len(p.deepFind(bounds, isCallToFn(sat), 2)) > 0, "O4", "MPT", funcKey(bounds)+": saturation compared with siblings", bounds.Pos(), "present", "the boundary walk no longer compares saturation with the sibling queues")
 	}
 
+	// ---- O5 (edge case): a zero fair share with something allocated is infinitely saturated, never "not saturated"
+	if fr := c.Anchor("O5", pkgReclaimable, "", "fairShareSaturationRatio"); fr != nil {
+		n := 0
+		okAll := true
+		bad := ""
+		for _, b := range fr.Blocks {
+			ret, isRet := b.Instrs[len(b.Instrs)-1].(*ssa.Return)
+			if !isRet {
+				continue
+			}
+			isInf := func(v ssa.Value) bool {
+				t := termOf(v)
+				return t.Op == "call" && strings.HasSuffix(t.Name, "math.Inf")
+			}
+			for _, fs := range fx.pathFactsTo(b, 4) {
+				_, zeroFair := hasFact(fs, func(f Fact) bool {
+					return f.Pol && f.T.Op == "bin" && f.T.Name == "==" && f.T.Args[0].paramIndex() == 1 && f.T.Args[1].String() == "const:0"
+				})
+				if !zeroFair {
+					continue
+				}
+				n++
+				_, nothingAllocated := hasFact(fs, func(f Fact) bool {
+					if f.T.Op != "bin" || len(f.T.Args) != 2 {
+						return false
+					}
+					a, bb := f.T.Args[0], f.T.Args[1]
+					// ¬(allocated > 0) in either orientation
+					if a.paramIndex() == 0 && bb.String() == "const:0" {
+						return (f.T.Name == ">" && !f.Pol) || (f.T.Name == "<=" && f.Pol) || (f.T.Name == "==" && f.Pol)
+					}
+					if bb.paramIndex() == 0 && a.String() == "const:0" {
+						return (f.T.Name == "<" && !f.Pol) || (f.T.Name == ">=" && f.Pol) || (f.T.Name == "==" && f.Pol)
+					}
+					return false
+				})
+				v := ret.Results[0]
+				infReturned := isInf(v)
+				if phi, isPhi := v.(*ssa.Phi); isPhi {
+					infReturned = true
+					for _, e := range phi.Edges {
+						if !isInf(e) {
+							infReturned = false
+						}
+					}
+				}
+				if !nothingAllocated && !infReturned {
+					okAll = false
+					bad = trunc(fs.String(), 200)
+				}
+			}
+		}
+		c.Check(okAll && n > 0, "O5", "RET", funcKey(fr)+": fair share 0 with something allocated ⇒ +Inf", fr.Pos(), fmt.Sprintf("%d zero-fair-share paths", n),
+			"with a fair share of 0 the saturation ratio can be a finite number although something is allocated ("+bad+"): the 'more saturated than 1 / than the sibling' guards never fire for an ancestor without entitlement, which can then take resources from a sibling")
+	}
+
 	// ---- O5: saturation comparison and clamp
 	if sat := c.Anchor("O5", pkgReclaimable, "Reclaimable", "isFairShareSaturationLowerPerResource"); sat != nil {
 		paths := fx.retPaths(sat, 0, WantFalse)
